@@ -1,5 +1,5 @@
 """C17 — generated paths are private to the job, distinct and reproducible."""
-FUNCS = ["PathGenerator.__call__", "ConfigWalkContext.currentpath", "ConfigInformation.seal.Sealer.postprocess"]
+FUNCS = ["ConfigWalk.__call__", "PathGenerator.__call__", "ConfigWalkContext.currentpath", "ConfigInformation.seal.Sealer.postprocess"]
 LEVEL = "proof"
 LEVEL_TEXT = "Deductive: PathGenerator.__call__ = context path / position / name; currentpath is a function of the context position only; Sealer.postprocess generates every generated argument from the context at this node and stores it bypassing the seal. Bounded: enumerated graphs with generated paths everywhere. Known finding: configuration shared by two tasks keeps the first task's path."
 TRUSTED = ['push/pop of the walk position is a @contextmanager generator (not executed symbolically)', 'distinctness relies on injectivity of path joins for plain names', 'z3 5.1 / cvc5 1.0.3 / z3 4.8.12 and the VC generator pyvc (validated by seeded changes, pre-fix replays and the CPython replay of counterexamples; not verified)', 'Python semantics of DESIGN 2.3 (mathematical ints and reals, left-to-right evaluation, no monkey-patching, assert not compiled out)', 'heap typing: declared field/parameter classes are assumed on reads and checked on writes in the functions under contract', "contracts of externals and of callees outside the list are assumed; every ('ASSUME', ...) clause is listed in DESIGN section 11"]
